@@ -17,7 +17,7 @@ rule = ("scripts = 'dec new <codec> <align>:<hex> ...' (guarded segments at the 
         "'dec peek', 'dec size'.  Stream 1 (exhaustive) = every byte string over {00,01,02,1f,20,de,df,e0,e1,fe,ff} up to "
         "length 4 x 4 COBS decoders in one segment, and up to length 3 (quick) / 4 (thorough) additionally in every "
         "2-segmentation as two segments and as 2-step arrival; plus a seeded sample of longer strings (all three forms); "
-        "stream 1b = every 3-segmentation (empty segments included) of every string of length 2 (thorough: 2..3) plus a third of the 3-segmentations of the strings of length 3 (thorough: 4) "
+        "stream 1b = every 3-segmentation (empty segments included) of every string of length 2 (thorough: 2..3) plus a third of the 3-segmentations of the strings of length 3 (thorough: a twelfth of those of length 4) "
         "and of valid multi-block frames (single and two frames back to back) for all 4 decoders, a third of them with a "
         "fourth, empty segment inserted, and of command text with head room; stream 2 = valid frames of structured "
         "messages (block-boundary lengths) mutated (byte flip, zero inserted, truncation, doubled delimiter) under random "
@@ -173,7 +173,7 @@ def scripts(tier, seed, scale=1):
         l4 = [[r0.choice(ALPHA) for _ in range(r0.choice([4, 5]))] for _ in range(400 * scale)]
         single = [x for x in strings(4) if len(x) == 4]
     else:
-        l4 = [[r0.choice(ALPHA) for _ in range(r0.choice([5, 6]))] for _ in range(6000 * scale)]
+        l4 = [[r0.choice(ALPHA) for _ in range(r0.choice([5, 6]))] for _ in range(2000 * scale)]
         single = []
     for codec in DECODERS:
         for k, x in enumerate(single):
@@ -201,8 +201,8 @@ def scripts(tier, seed, scale=1):
             n = len(x)
             for i in range(0, n + 1):
                 for j in range(i, n + 1):
-                    if n >= top3 and (i + j + k) % 3:
-                        continue        # a third of the splits of the longest strings (length 3 quick, length 4 thorough)
+                    if n >= top3 and (i + j + k) % (3 if tier == "quick" else 12):
+                        continue        # a third (thorough: a twelfth) of the splits of the longest strings (length 3 quick, length 4 thorough)
                     out.append(("s3:%s:%s:%d:%d" % (codec, gen.hexs(x), i, j), seg3(codec, x, i, j, k)))
         for k, m in enumerate(base_msgs):
             f = ref_encode(codec, m)
@@ -253,7 +253,7 @@ def scripts(tier, seed, scale=1):
         p0 = r.choice([0.02, 0.1, 0.3])
         data = [0 if r.random() < p0 else r.choice(ALPHA + [r.randrange(256)] * 6) for _ in range(n)]
         out.append(("rnd:%s:%d" % (codec, k), stream_script(r, codec, data, r.choice([0, 1, 2, 4, 32]))))
-    # ---- stream 4: decoder states set by hand (every consistent combination of small offsets, open blocks in
+    # ---- stream 4: decoder states set by hand (consistent offsets pos + len <= curr <= storage size, open blocks in
     # their data and zero parts, with and without work area — also states no decoder call leaves behind, e.g. an
     # open data block without a byte of work area), then run / peek / more input.  The spec column is silent
     # there; code and model are compared, guards and sanitizers watch the accesses.
@@ -270,7 +270,7 @@ def scripts(tier, seed, scale=1):
         msg = r.choice([-1, -1, ln])
         pad = [r.choice([0x11, 0x22, 0]) for _ in range(curr)]
         x = pad + r.choice(inputs)
-        cut = r.randrange(len(x) + 1)
+        cut = r.randrange(curr, len(x) + 1)     # the storage holds at least the `curr` bytes the state claims to have consumed
         lines = ["dec new %s %s" % (codec, seg(r.randrange(16), x[:cut])), "dec state %d %d %d %d %d" % (code + 256 * bpos, curr, pos, ln, msg)]
         lines.append(r.choice(["dec run", "dec peek", "dec run"]))
         if cut < len(x):
@@ -354,11 +354,11 @@ class _DQF:
             for _ in range(n):
                 ops.append(r.choice(["dq recv", "dq recv", "dq drain", "dq msg", "dq peek 4", "dq peek 100 nodst", "dq shift"]))
             return ops
-        # every string over the boundary alphabet up to length 3, fed at once and byte by byte, rings with wrap offsets
+        # every string over the boundary alphabet up to length 2 (thorough: 3) plus a sample of longer ones, fed at once and byte by byte, rings with wrap offsets
         if tier == "quick":
             strs = strings(2) + [[r.choice(ALPHA) for _ in range(r.choice([3, 3, 4]))] for _ in range(350 * scale)]
         else:
-            strs = strings(4)
+            strs = strings(3) + [[r.choice(ALPHA) for _ in range(r.choice([4, 4, 5]))] for _ in range(3000 * scale)]
         for codec in DECODERS:
             for k, x in enumerate(strs):
                 if not x:
@@ -465,4 +465,18 @@ class _DQF:
     finding_key = staticmethod(lambda script, res: finding_key(script, res))
 
 
-extra_parts = [_c02] + list(getattr(_c02, "extra_parts", [])) + [_DQF]
+class _Lighter:
+    """a part of another property run inside this check: same driver, model, rules — but its thorough tier is run by
+    its own check (./check C02 --tier thorough); here the generators keep their quick budgets (random budgets x3 in
+    the thorough tier) so that C03's thorough tier stays inside its time budget"""
+    def __init__(self, inner):
+        self._inner = inner
+
+    def __getattr__(self, k):
+        return getattr(self._inner, k)
+
+    def scripts(self, tier, seed, scale=1):
+        return self._inner.scripts("quick", seed, scale * (3 if tier == "thorough" else 1))
+
+
+extra_parts = [_Lighter(q) for q in [_c02] + list(getattr(_c02, "extra_parts", []))] + [_DQF]
